@@ -38,6 +38,8 @@ func c07(c *Ctx) {
 	c07R11(c, "R11")
 	coreCommitBundle(c, "R12", "C05.R1", "S-QUORUM")
 	sState(c, "R7/S-STATE")
+	c10R1(c, "R13/C10.R1")
+	sLockDiscipline(c, "R13/S-LOCK", "commitment")
 }
 
 func c07R1(c *Ctx, rule string) {
